@@ -36,17 +36,12 @@ def echoSpec (ops : List OptOp) (n : Nat) : Int :=
   if selMulti ops then (if n > 0 then 0 else -1)
   else if 1 ≤ selK ops ∧ selK ops ≤ n then (selK ops : Int) - 1 else -1
 
-/-- every objective that is kept has an `O` segment in the file (AMPL and the NL writers always
-    write one per objective; the reader does not require it) -/
-def keptHaveO (ops : List OptOp) (n : Nat) (segs : List Seg) : Prop :=
-  if selMulti ops then (n > 0 → ∃ i, hasO segs i = true)
-  else (1 ≤ selK ops ∧ selK ops ≤ n → hasO segs (selK ops - 1) = true)
-
 /-! ### the header step -/
 
 theorem header_ok {ops : List OptOp} {n : Nat} {st0 : St} (h : onHeader {} ops n = .ok st0) :
     multiobj st0.solver = selMulti ops ∧ objnoSpecified st0.solver = selK ops ∧
-    st0.solver.optsRead = true ∧ st0.solver.objAdded = false ∧
+    st0.solver.optsRead = true ∧
+    st0.solver.objAdded = decide (resultingNObj (selMulti ops) (selK ops) n > 0) ∧
     st0.objs = List.replicate (resultingNObj (selMulti ops) (selK ops) n) Obj.empty ∧
     ¬ (selK ops > n ∧ (givenObjno ops).isSome) ∧ validOpts ops := by
   simp only [onHeader] at h
@@ -96,10 +91,27 @@ theorem header_ok {ops : List OptOp} {n : Nat} {st0 : St} (h : onHeader {} ops n
     · rename_i hchk
       simp at h; subst h
       refine ⟨hmulti, hkk, rfl, ?_, rfl, ?_, ⟨p5, p6⟩⟩
-      · simpa using p3
+      · have : s1.objAdded = false := by simpa using p3
+        simp [this]
       · intro ⟨a, b⟩
         apply hchk
         simp [a, b]
+
+/-- in single-objective mode outside `1 ≤ k ≤ n` (after the range check) no objective slot exists -/
+theorem resultingNObj_zero {ops : List OptOp} {n : Nat}
+    (hchk : ¬ (selK ops > n ∧ (givenObjno ops).isSome)) (hr : ¬ (1 ≤ selK ops ∧ selK ops ≤ n)) :
+    resultingNObj false (selK ops) n = 0 := by
+  simp only [resultingNObj, Bool.false_eq_true, if_false]
+  by_cases hk0 : selK ops = 0
+  · simp [hk0]
+  · have hgt : selK ops > n := by omega
+    have hnone : givenObjno ops = none := by
+      cases hg : givenObjno ops with
+      | none => rfl
+      | some v => exact absurd ⟨hgt, by simp [hg]⟩ hchk
+    have : selK ops = 1 := by simp [selK, hnone]
+    have : n = 0 := by omega
+    simp [this]
 
 /-! ## The property theorems -/
 
@@ -318,27 +330,11 @@ theorem C12_index_in_range (multi : Bool) (k n idx : Nat) (hidx : idx < n)
       subst this
       simp [needObj_zero] at hneed
 
-/-
-FULL-STRENGTH STATEMENT of the echo clause (does NOT hold for the code as it exists):
-
-  theorem C12_echo (ops n segs st) (h : readNL ops n segs = .ok st) :
-      solObjnoLine st = echoSpec ops n
-
-`objno_used()` reports an objective only if an `O` segment of a kept objective was seen
-(`obj_added_`).  An NL file may declare an objective in the header and give it only a `G`
-segment (or nothing at all): the reader accepts it, the objective (`min`, linear terms) is
-delivered to the solver, but the .sol file says `objno -1` ("no objective").  See
-`C12_counterexample_echo_noO` and `C12_echo_noO` below.  Proved instead: the statement under the
-hypothesis that every kept objective has an `O` segment (true of every file AMPL or the
-NL writers of this repository produce).
--/
-
-/-- **Echo (partial: kept objectives have an `O` segment).**  The number on the `objno` line is the
-    0-based index of the objective that was used (`k-1`; `0` in multi-objective mode with `n>0`),
-    and `-1` when none was. -/
-theorem C12_echo_partial (ops : List OptOp) (n : Nat) (segs : List Seg) (st : St)
-    (h : readNL ops n segs = .ok st) (hO : keptHaveO ops n segs) :
-    solObjnoLine st = echoSpec ops n := by
+/-- **Echo.**  The number on the `objno` line of the .sol file is the 0-based index of the objective
+    that was used (`k-1`; `0` in multi-objective mode with `n>0`), and `-1` when none was - for every
+    option sequence, every `n`, every segment stream (objectives without an `O` segment included). -/
+theorem C12_echo (ops : List OptOp) (n : Nat) (segs : List Seg) (st : St)
+    (h : readNL ops n segs = .ok st) : solObjnoLine st = echoSpec ops n := by
   simp only [readNL] at h
   cases hh : onHeader {} ops n with
   | error e => simp [hh] at h
@@ -348,22 +344,17 @@ theorem C12_echo_partial (ops : List OptOp) (n : Nat) (segs : List Seg) (st : St
     obtain ⟨a1, a2, a3, a4⟩ := readSegs_solver segs st0 st h
     obtain ⟨c1, c2, _⟩ := multiobj_congr a1 a2
     have hidx := readSegs_ok_idx segs st0 st h
-    simp only [solObjnoLine, objnoUsed, a3, hor, if_true, a4, hoa, Bool.false_or, c2, hk, hm, echoSpec]
-    simp only [keptHaveO] at hO
+    simp only [solObjnoLine, objnoUsed, a3, hor, if_true, a4, hoa, c2, hk, hm, echoSpec]
     cases hsm : selMulti ops with
     | true =>
-      rw [hsm] at hO
-      simp only [if_true] at hO ⊢
+      simp only [if_true, resultingNObj]
       by_cases hn : n > 0
-      · have := (any_addsObj_multi (selK ops) segs).mpr (hO hn)
-        simp only [this, hn, if_true]
-        -- multi mode: no number given, so k = 1
-        have hnone : givenObjno ops = none := by
+      · have hnone : givenObjno ops = none := by
           simp only [selMulti, Bool.and_eq_true] at hsm
           cases hg : givenObjno ops with
           | none => rfl
           | some v => simp [hg] at hsm
-        simp [selK, hnone]
+        simp [hn, selK, hnone]
       · have hno : segs.any (addsObj true (selK ops)) = false := by
           rw [Bool.eq_false_iff]
           intro hany
@@ -374,12 +365,15 @@ theorem C12_echo_partial (ops : List OptOp) (n : Nat) (segs : List Seg) (st : St
           | other => simp [addsObj] at hadd
         simp [hno, hn]
     | false =>
-      rw [hsm] at hO
-      simp only [Bool.false_eq_true, if_false] at hO ⊢
+      simp only [Bool.false_eq_true, if_false]
       by_cases hr : 1 ≤ selK ops ∧ selK ops ≤ n
-      · rw [any_addsObj_single _ hr.1, hO hr]
-        simp [hr]
-      · simp only [hr, if_false]
+      · have h1 : resultingNObj false (selK ops) n = 1 := by
+          simp only [resultingNObj, Bool.false_eq_true, if_false]
+          have a : selK ops > 0 := by omega
+          have b : n > 0 := by omega
+          simp [a, b]
+        simp [h1, hr]
+      · simp only [hr, if_false, resultingNObj_zero hchk hr]
         have hno : segs.any (addsObj false (selK ops)) = false := by
           by_cases hk0 : selK ops = 0
           · rw [hk0]; exact any_addsObj_zero segs
@@ -395,42 +389,23 @@ theorem C12_echo_partial (ops : List OptOp) (n : Nat) (segs : List Seg) (st : St
             | other => simp [addsObj] at hadd
         simp [hno]
 
-/-- the defect class, exactly: in single-objective mode with `1 ≤ k ≤ n`, if objective `k` has no
-    `O` segment the objective is still delivered but the .sol file says `objno -1` -/
-theorem C12_echo_noO (ops : List OptOp) (n : Nat) (segs : List Seg) (st : St)
-    (h : readNL ops n segs = .ok st) (hs : selMulti ops = false)
-    (hr : 1 ≤ selK ops ∧ selK ops ≤ n) (hno : hasO segs (selK ops - 1) = false) :
-    delivered st = [fileObj segs (selK ops - 1)] ∧ solObjnoLine st = -1 := by
-  refine ⟨by rw [C12_select ops n segs st h, selected]; simp [hs, hr], ?_⟩
-  simp only [readNL] at h
-  cases hh : onHeader {} ops n with
-  | error e => simp [hh] at h
-  | ok st0 =>
-    simp only [hh] at h
-    obtain ⟨hm, hk, hor, hoa, _, _, _⟩ := header_ok hh
-    obtain ⟨a1, a2, a3, a4⟩ := readSegs_solver segs st0 st h
-    simp only [solObjnoLine, objnoUsed, a3, hor, if_true, a4, hoa, Bool.false_or, hk, hm, hs,
-      any_addsObj_single _ hr.1, hno]
-    simp
-
-/-- concrete witness that the full-strength echo statement fails: one objective declared, only a
-    `G` segment (`minimize x0`), default options: the objective is delivered, the echo is `-1`
-    where the specification says `0`. -/
-theorem C12_counterexample_echo_noO :
+/-- regression witness for the former finding C12-echo-noO: one objective declared, only a `G`
+    segment, default options: objective delivered and echoed as objective 0 -/
+theorem C12_echo_noO_regression :
     ∃ st, readNL [] 1 [Seg.G 0 [(0, 1)]] = .ok st ∧
-      delivered st = [⟨false, 0, [(0, 1)]⟩] ∧ solObjnoLine st = -1 ∧ echoSpec [] 1 = 0 := by
-  exact ⟨_, rfl, by decide, by decide, by decide⟩
+      delivered st = [⟨false, 0, [(0, 1)]⟩] ∧ solObjnoLine st = 0 := by
+  exact ⟨_, rfl, by decide, by decide⟩
 
-/-- **Objective names (partial, same hypothesis).**  The row-file entries used as names of the
+/-- **Objective names.**  The row-file entries used as names of the
     delivered objectives are those of the selected objectives: `numCons + (k-1)`, resp.
     `numCons + i` for every `i < n` in multi-objective mode. -/
-theorem C12_names_partial (ops : List OptOp) (n numCons : Nat) (segs : List Seg) (st : St)
-    (h : readNL ops n segs = .ok st) (hO : keptHaveO ops n segs) :
+theorem C12_names (ops : List OptOp) (n numCons : Nat) (segs : List Seg) (st : St)
+    (h : readNL ops n segs = .ok st) :
     objRowIdx numCons st =
       if selMulti ops then (List.range n).map (fun i => ((numCons + i : Nat) : Int))
       else if 1 ≤ selK ops ∧ selK ops ≤ n then [((numCons + (selK ops - 1) : Nat) : Int)] else [] := by
   have hsel := C12_select ops n segs st h
-  have hecho := C12_echo_partial ops n segs st h hO
+  have hecho := C12_echo ops n segs st h
   simp only [delivered] at hsel
   simp only [readNL] at h
   cases hh : onHeader {} ops n with
@@ -471,12 +446,8 @@ example : (readNL [.multi 1, .objno 3] 3 (encode [⟨false, 1, []⟩, ⟨true, 2
 -- objno=4 of 3: rejected;  objno=0: nothing delivered, echo -1
 example : readNL [.objno 4] 3 (encode [⟨false, 1, []⟩, ⟨true, 2, []⟩, ⟨false, 0, []⟩]) = .error .objnoOutOfRange := by rfl
 example : (readNL [.objno 0] 1 (encode [⟨true, 1, []⟩])).map (fun st => (delivered st, solObjnoLine st)) = .ok ([], -1) := by rfl
--- the hypotheses of C12_reject / C12_accept / C12_echo_partial are satisfiable
+-- the hypotheses of C12_reject / C12_accept are satisfiable
 example : validOpts [.multi 1, .objno 3] := by
   constructor <;> (intro v hv; simp [objnoVals, multiVals] at hv; omega)
-example : keptHaveO [.objno 2] 3 (encode [⟨false, 1, []⟩, ⟨true, 2, [(0, 3)]⟩, ⟨false, 0, [(1, 1)]⟩]) := by
-  have hs : selMulti [OptOp.objno 2] = false := by decide
-  simp only [keptHaveO, hs]
-  intro _; decide
 
 end MpVerif.C12
